@@ -779,7 +779,7 @@ def r13_2_replace(ctx, prog, rule="R13.2"):
     for key, (ok, why, pa) in sorted(seen.items()):
         ctx.ob(rule, key, ok, why, info["where"], replay=None if ok else pa.describe())
     ctx.floor(rule, "remove cases", len(seen), 5)
-    cl = [b for b in prog.bodies.values() if b.path.startswith(SA + "::remove::{closure")]
+    cl = [b for b in prog.bodies.values() if b.path.startswith(SA + "::remove::{closure") and b.tystr(b.locals[0]["ty"]) == "bool"]
     for b in cl:
         paths, info = C.explore_fn(prog, b.path, "c", [])
         for pa in paths:
@@ -814,7 +814,7 @@ def r13_45_build(ctx, prog, rule="R13.5"):
     for pa in paths:
         tid = pa.choice(r"^variant\(transaction_id\)$")
         wt = pa.calls_to(r"StunMessageBuilder::with_transaction_id$")
-        conv = [c for c in pa.calls if re.search(r"Into<std::vec::Vec<.*StunAttribute>>>::into$|From<stun_agent::message::StunAttributes>>::from$", c[1])]
+        conv = [c for c in pa.calls if re.search(r"Into<std::vec::Vec<.*StunAttribute>>>::into$|From<stun_agent::message::StunAttributes>.*::from$", c[1])]
         n += 1
         ok = (len(wt) == 1) == (tid == "Some") and len(conv) >= 1 and "attributes" in repr(conv[0][2])
         bd = pa.calls_to(r"StunMessageBuilder::build$")
@@ -1076,8 +1076,17 @@ def r4_7_input_text(ctx, prog, rule="R4.7"):
                     if isinstance(src, tuple) and src and src[0] == "u16::to_be_bytes":
                         wr.append((a[0], src[1]))
             okp = len(cb) == 1 and cb[0][0] == "top:buffer" and (cb[0][1] == 20 or (isinstance(cb[0][1], tuple) and cb[0][1][0] == "op:Add" and 20 in cb[0][1][1:]))
-            okv = len(tv) == 1 and isinstance(tv[0][0], tuple) and "top:buffer" in repr(tv[0][0]) and repr(("RangeTo", cb[0][1] if cb else None)) in repr(tv[0][0])
-            okw = len(wr) == 1 and repr(("Range", 2, 4)) in repr(wr[0][0]) and "pos" in repr(wr[0][1])
+            # the copy is the view buffer[0 .. checked bound], however it is sliced (index, split_at half, get)
+            from .. import linproof as LP
+            okv = False
+            if len(tv) == 1 and cb:
+                L_ = LP.Lin()
+                root, lo, hi = L_.view(tv[0][0])
+                okv = root == "top:buffer" and lo == {} and hi == L_.lin(cb[0][1])
+            okw = len(wr) == 1 and "pos" in repr(wr[0][1])
+            if okw:
+                root, lo, hi = LP.Lin().view(wr[0][0])
+                okw = lo == {1: 2} and hi == {1: 4}
             if not (okp and okv and okw):
                 bad.append("result is not buffer[..prefix+20] with length patched at 2..4: check %s, to_vec %s, write %s" % (
                     [show(x)[:50] for x in cb], [show(x)[:60] for x in tv], [show(x)[:60] for x in wr]))
